@@ -76,6 +76,14 @@ def edits(rng, lines, limit):
             c, tag = ch()
             out.append(('insert-char' + tag, lines[:i] + [s[:p] + c + s[p:]] + lines[i + 1:]))
             out.append(('insert-space', lines[:i] + [s[:p] + ' ' + s[p:]] + lines[i + 1:]))
+    # a white space character other than U+0020 (tab, line feed, no-break space, em space) inserted anywhere,
+    # in particular next to a space and at the edges of an utterance: it is a character like any other for
+    # the comparison "equal once spaces are removed"
+    for i in range(n):
+        s = lines[i]
+        for p in sorted({0, len(s)} | {q for q in range(len(s) + 1) if (q < len(s) and s[q] == ' ') or (q > 0 and s[q - 1] == ' ')} | {rng.randint(0, len(s))}):
+            ws = rng.choice(['\t', '\n', '\xa0', '\u2003'])
+            out.append(('insert-unicode-space', lines[:i] + [s[:p] + ws + s[p:]] + lines[i + 1:]))
     if len(out) > limit:
         out = rng.sample(out, limit)
     return out
